@@ -224,6 +224,12 @@ class OMachine(Machine):
             for v in s['vars']:
                 if v.get('init') is None and v['id'] not in self.env and 'XObjectPtr' in (v.get('ty') or ''):
                     self.env[v['id']] = None        # a default-constructed (null) XObjectPtr
+        if k == 'Decl':
+            import re as _re
+            for v in s['vars']:
+                mt = _re.search(r'\[(\d+)\]\s*$', v.get('ty') or '')
+                if mt and v.get('init') is None and v['id'] not in self.env:
+                    self.env[v['id']] = Vec(['UNINIT'] * int(mt.group(1)))        # a local array; its name decays to a pointer to the first element
         if k == 'Decl' and getattr(self.world, 'destructor', None) is not None:
             for v in s['vars']:
                 if v.get('init') is not None:
